@@ -196,6 +196,6 @@ pub fn run(args: &Args) -> i32 {
     ev.assume("the fork/exec of upgrade_main is not run; UpgradeData.state is the ConfigState JSON round trip checked here");
     ev.floor("roundtrip", "3+_object_kinds", 0.3);
     let cases = args.cases(30_000, 400_000);
-    engine::run_pbt(&mut ev, args, "roundtrip", cases, strategy, check);
+    engine::with_quiet_stdout(|| engine::run_pbt(&mut ev, args, "roundtrip", cases, strategy, check));
     ev.finish()
 }
